@@ -26,7 +26,9 @@
     /* (b) leaf helpers */ \
     X(size_t, g14_len0) X(size_t, g14_w)
 
-/* (b) decode_quoted_cd_value_inplace: s and d walk the same buffer, d never overtakes s */
+/* (b) leaf helpers: payload of an inline bstr; one read of byte i of a read-only bstr (inline or wrapped, RO_BSTR) */
 #define C14_BP(b) ((unsigned char *)(b) + sizeof(bstr))
+#define C14_VB(b, i) ((g_wrapped ? (b)->realptr : C14_BP(b))[i])
+#define C14_BUNUSUAL(c) ((c) == '\'' || (c) == '(' || (c) == ')' || (c) == '+' || (c) == '_' || (c) == ',' || (c) == '.' || (c) == '/' || (c) == ':' || (c) == '=' || (c) == '?')
 
 #endif
